@@ -473,3 +473,245 @@ Proof.
   rewrite Forall_forall in HF. destruct (HF _ Hin) as [_ Hk]. cbn [fst snd] in Hk. subst ks. reflexivity.
 Qed.
 End Chain.
+
+(* ================================================================== C10 across restarts of Run *)
+Section Restart.
+Context {K : Type}.
+Implicit Types (s : wstate) (c : gcfg).
+
+Definition not_died (x : out) : bool := match x with Died => false | _ => true end.
+
+Lemma evm_of_wout_of_out : forall (l : list out), flat_map (@evm_of K) (map wout_of_out l) = filter not_died l.
+Proof.
+  intros l. induction l as [|x t IH]; [reflexivity|].
+  cbn [map flat_map filter]. rewrite IH. destruct x; reflexivity.
+Qed.
+Lemma evm_of_wout_of_gout : forall (l : list (gout K)), flat_map (@evm_of K) (map wout_of_gout l) = [].
+Proof.
+  intros l. induction l as [|x t IH]; [reflexivity|]. cbn [map flat_map]. rewrite IH. destruct x; reflexivity.
+Qed.
+
+(* the Watcher value's pending map and what its goroutines emit are those of the EVM-watcher model run on the operations the
+   history executes: fetches and restarts neither touch w.pending nor emit messages *)
+Lemma gstep_evm : forall c s (o : gop K),
+  w_pending (fst (gstep c s o)) = fst (run (g_evm c) (w_pending s) (gtrace1 s o)) /\
+  flat_map (@evm_of K) (snd (gstep c s o)) = filter not_died (concat (snd (run (g_evm c) (w_pending s) (gtrace1 s o)))).
+Proof.
+  intros c s o. destruct o as [a|a h0|x|answers orc]; cbn [gstep gtrace1 fst snd].
+  - split; [reflexivity|]. apply evm_of_wout_of_gout.
+  - split; [reflexivity|]. apply evm_of_wout_of_gout.
+  - cbn [run fst snd concat]. rewrite app_nil_r. split; [reflexivity|]. rewrite evm_step_outs. apply evm_of_wout_of_out.
+  - rewrite evm_steps_pending. cbn [w_pending]. split; [reflexivity|].
+    rewrite flat_map_app, evm_steps_outs, evm_of_wout_of_out. cbn [w_pending].
+    destruct (snd (poll_tick (w_enabled s) (w_last s) answers)); cbn [flat_map evm_of app]; rewrite app_nil_r; reflexivity.
+Qed.
+
+Lemma run_app : forall (c : cfg) a b (s : pending),
+  fst (run c s (a ++ b)) = fst (run c (fst (run c s a)) b) /\
+  snd (run c s (a ++ b)) = snd (run c s a) ++ snd (run c (fst (run c s a)) b).
+Proof.
+  intros c a. induction a as [|o t IH]; intros b s; [split; reflexivity|].
+  cbn [app run fst snd]. destruct (IH b (fst (step c s o))) as [I1 I2]. rewrite I1, I2. split; reflexivity.
+Qed.
+
+Theorem grun_evm : forall c (ops : list (gop K)) s,
+  w_pending (fst (grun c s ops)) = fst (run (g_evm c) (w_pending s) (gtrace c s ops)) /\
+  evm_outs (snd (grun c s ops)) = filter not_died (concat (snd (run (g_evm c) (w_pending s) (gtrace c s ops)))).
+Proof.
+  intros c ops. induction ops as [|o t IH]; intros s; [split; reflexivity|].
+  cbn [grun gtrace fst snd]. destruct (gstep_evm c s o) as [G1 G2]. destruct (IH (fst (gstep c s o))) as [I1 I2].
+  destruct (run_app (g_evm c) (gtrace1 s o) (gtrace c (fst (gstep c s o)) t) (w_pending s)) as [R1 R2].
+  rewrite R1, R2, <- G1. split; [exact I1|].
+  unfold evm_outs in *. cbn [concat]. rewrite flat_map_app, concat_app, filter_app, G2, I2, G1. reflexivity.
+Qed.
+
+(* the logs and heads a history executes are those it was given (a poller tick contributes heads only) *)
+Lemma gtrace_log : forall c (ops : list (gop K)) s e bt, In (OLog e bt) (gtrace c s ops) -> In (GEvm (OLog e bt)) ops.
+Proof.
+  intros c ops. induction ops as [|o t IH]; intros s e bt H; [contradiction|].
+  cbn [gtrace] in H. apply in_app_or in H. destruct H as [H|H].
+  - destruct o as [a|a h0|x|answers orc]; cbn [gtrace1] in H; try contradiction.
+    + destruct H as [H|H]; [subst x; left; reflexivity|contradiction].
+    + unfold poll_heads in H. apply in_map_iff in H. destruct H as [h [H _]]. discriminate H.
+  - right. exact (IH _ e bt H).
+Qed.
+
+Lemma run_in_split : forall (c : cfg) ops (s : pending) x, In x (concat (snd (run c s ops))) ->
+  exists pre o post, ops = pre ++ o :: post /\ In x (snd (step c (fst (run c s pre)) o)).
+Proof.
+  intros c ops. induction ops as [|o t IH]; intros s x H; [contradiction|].
+  cbn [run snd concat] in H. apply in_app_or in H. destruct H as [H|H].
+  - exists [], o, t. split; [reflexivity|exact H].
+  - destruct (IH _ x H) as [pre [o' [post [E Hin]]]]. exists (o :: pre), o', post. split; [rewrite E; reflexivity|exact Hin].
+Qed.
+
+Lemma confirmed_only_by_head : forall (c : cfg) (s : pending) o k m, In (Confirmed k m) (snd (step c s o)) -> exists n safe orc, o = OHead n safe orc.
+Proof.
+  intros c s o k m H. destruct o as [e [tm|]|n safe orc|hb ha rc bt]; cbn [step snd] in H.
+  - contradiction.
+  - destruct H as [H|H]; [discriminate H|contradiction].
+  - exists n, safe, orc. reflexivity.
+  - exfalso. assert (Hf : filter (aboutb k) (reobserve c hb ha rc bt) = []) by apply about_reobserve.
+    assert (Hin : In (Confirmed k m) (filter (aboutb k) (reobserve c hb ha rc bt))).
+    { apply filter_In. split; [exact H|]. unfold aboutb. cbn [about]. apply key_eqb_refl. }
+    rewrite Hf in Hin. contradiction.
+Qed.
+
+(* SAFETY across any number of restarts, guardian-set fetches and poller ticks, from a fresh Watcher value: a message leaves the
+   per-head scan only if a log with that key was delivered earlier (with its block time), the scanned head has reached the log's
+   height + expected confirmations (the source's uint64 arithmetic), and the receipt answer of THAT scan is error-free with status
+   1 and the block hash recorded when the log was seen *)
+Theorem restart_forward_safe : forall c (ops : list (gop K)) k m,
+  In (WEvm (Confirmed k m)) (concat (snd (grun c winit ops))) ->
+  exists e tm n safe orc,
+    In (GEvm (OLog e (Some tm))) ops /\ key_of e = k /\ m = msg_of (g_evm c) e tm /\
+    In (OHead n safe orc) (gtrace c winit ops) /\
+    thr_of (c_wait (g_evm c)) safe (pm_of (g_evm c) e tm) <= u64 n /\
+    orc k = mkAns (Some (1, e_bh e)) ENone.
+Proof.
+  intros c ops k m H.
+  assert (Hin : In (Confirmed k m) (evm_outs (snd (grun c winit ops)))).
+  { unfold evm_outs. apply in_flat_map. exists (WEvm (Confirmed k m)). split; [exact H|left; reflexivity]. }
+  destruct (grun_evm c ops winit) as [_ G]. rewrite G in Hin. apply filter_In in Hin. destruct Hin as [Hin _].
+  cbn [winit w_pending] in Hin.
+  destruct (run_in_split _ _ _ _ Hin) as [pre [o [post [E Hs]]]].
+  destruct (confirmed_only_by_head _ _ _ _ _ Hs) as [n [safe [orc Eo]]]. subst o.
+  apply scan_step_safe in Hs. destruct Hs as [p [Hp [Hm [Hd Ha]]]].
+  destruct (prov_init (g_evm c) pre k p Hp) as [e [tm [H1 [H2 H3]]]]. subst k p.
+  exists e, tm, n, safe, orc. repeat apply conj; try reflexivity; try assumption.
+  - apply (gtrace_log c ops winit). rewrite E. apply in_or_app. left. exact H1.
+  - rewrite E. apply in_or_app. right. left. reflexivity.
+Qed.
+
+(* the same in plain arithmetic under the range hypotheses of C10 *)
+Theorem restart_forward_safe_math : forall c (ops : list (gop K)) k m,
+  (forall e tm, In (GEvm (OLog e (Some tm))) ops -> wf_ev e) ->
+  (forall n safe orc, In (OHead n safe orc) (gtrace c winit ops) -> 0 <= n < two64) ->
+  In (WEvm (Confirmed k m)) (concat (snd (grun c winit ops))) ->
+  exists e tm n safe orc,
+    In (GEvm (OLog e (Some tm))) ops /\ key_of e = k /\ m = msg_of (g_evm c) e tm /\
+    In (OHead n safe orc) (gtrace c winit ops) /\
+    e_h e + evm_expected (c_wait (g_evm c)) safe (e_cl e) <= n /\
+    orc k = mkAns (Some (1, e_bh e)) ENone.
+Proof.
+  intros c ops k m Hwf Hn H. destruct (restart_forward_safe c ops k m H) as [e [tm [n [safe [orc [H1 [H2 [H3 [H4 [H5 H6]]]]]]]]]].
+  exists e, tm, n, safe, orc. repeat apply conj; try assumption.
+  rewrite (thr_math _ _ _ (wf_pm_of (g_evm c) e tm (Hwf e tm H1))) in H5. rewrite (u64_id n (Hn n safe orc H4)) in H5. exact H5.
+Qed.
+
+(* never twice across restarts (unless the node announces the log again) *)
+Theorem restart_at_most_once : forall c (ops : list (gop K)) s k,
+  NoDup (keys (w_pending s)) -> no_relog k (gtrace c s ops) ->
+  (length (filter (confirmedb k) (evm_outs (snd (grun c s ops)))) <= 1)%nat.
+Proof.
+  intros c ops s k Hnd Hr. destruct (grun_evm c ops s) as [_ G]. rewrite G.
+  pose proof (at_most_once (g_evm c) (w_pending s) k (gtrace c s ops) Hnd Hr) as H.
+  eapply Nat.le_trans; [|exact H].
+  generalize (concat (snd (run (g_evm c) (w_pending s) (gtrace c s ops)))). intros l.
+  induction l as [|x t IH]; [cbn; lia|]. cbn [filter]. destruct (not_died x); cbn [filter]; destruct (confirmedb k x); cbn [length]; lia.
+Qed.
+
+Theorem restart_pending_keys_distinct : forall c (ops : list (gop K)), NoDup (keys (w_pending (fst (grun c winit ops)))).
+Proof.
+  intros c ops. destruct (grun_evm c ops winit) as [G _]. rewrite G. apply nodup_run. constructor.
+Qed.
+
+(* ------------------------------------------------------------------ what a restart does to liveness *)
+(* operations that neither deliver a log nor hand a head directly to the head goroutine: poller ticks, guardian-set fetches,
+   re-observation requests, further restarts, a log whose block-time lookup fails *)
+Definition no_log_no_head (o : gop K) : Prop :=
+  match o with GEvm (OLog _ (Some _)) | GEvm (OHead _ _ _) => False | _ => True end.
+
+Lemma gstep_off : forall c s (o : gop K), w_enabled s = false -> no_log_no_head o ->
+  w_enabled (fst (gstep c s o)) = false /\ w_pending (fst (gstep c s o)) = w_pending s /\ gtrace1 s o = match o with GEvm x => [x] | _ => [] end.
+Proof.
+  intros c s o He Ho. destruct o as [a|a h0|x|answers orc]; cbn [gstep fst gtrace1].
+  - repeat apply conj; [exact He|reflexivity|reflexivity].
+  - repeat apply conj; reflexivity.
+  - destruct x as [e [tm|]|n safe orc|hb ha rc bt]; try contradiction; cbn [evm_step step fst w_enabled w_pending];
+      repeat apply conj; try reflexivity; exact He.
+  - unfold poll_heads. rewrite He, poll_tick_disabled. cbn [fst snd map evm_steps w_enabled w_pending].
+    repeat apply conj; reflexivity.
+Qed.
+
+(* after a restart the NEW poller is off although w.pending still holds the entries of the previous Run: until the next log
+   arrives no head is processed, so nothing pending is forwarded, dropped or abandoned, whatever the chain does *)
+Theorem restart_stalls_until_next_log : forall c (ops : list (gop K)) s,
+  w_enabled s = false -> Forall no_log_no_head ops ->
+  w_pending (fst (grun c s ops)) = w_pending s /\ w_enabled (fst (grun c s ops)) = false /\
+  (forall k x, In x (evm_outs (snd (grun c s ops))) -> decisionb k x = false).
+Proof.
+  intros c ops. induction ops as [|o t IH]; intros s He Hq.
+  - repeat apply conj; [reflexivity|exact He|intros k x H; contradiction].
+  - inversion Hq as [|o' t' Ho Ht]. subst. destruct (gstep_off c s o He Ho) as [G1 [G2 G3]].
+    destruct (IH _ G1 Ht) as [I1 [I2 I3]]. cbn [grun fst snd]. rewrite I1, G2. repeat apply conj; [reflexivity|exact I2|].
+    intros k x Hin. unfold evm_outs in *. cbn [concat] in Hin. rewrite flat_map_app in Hin. apply in_app_or in Hin.
+    destruct Hin as [Hin|Hin]; [|exact (I3 k x Hin)].
+    destruct (gstep_evm c s o) as [_ E]. rewrite E, G3 in Hin. apply filter_In in Hin. destruct Hin as [Hin _].
+    destruct o as [a|a h0|y|answers orc]; try contradiction.
+    destruct y as [e [tm|]|n safe orc|hb ha rc bt]; try contradiction; cbn [run step snd concat app] in Hin.
+    + destruct Hin as [Hin|Hin]; [subst x; reflexivity|contradiction].
+    + rewrite app_nil_r in Hin.
+      assert (Hf : filter (aboutb k) (reobserve (g_evm c) hb ha rc bt) = []) by apply about_reobserve.
+      destruct (decisionb k x) eqn:Ed; [|reflexivity]. exfalso.
+      assert (Hab : aboutb k x = true) by (destruct x; cbn in Ed |- *; try discriminate Ed; exact Ed).
+      assert (Hi : In x (filter (aboutb k) (reobserve (g_evm c) hb ha rc bt))) by (apply filter_In; split; assumption).
+      rewrite Hf in Hi. contradiction.
+Qed.
+
+Corollary restart_switches_poller_off : forall c s (a : gans K) h0,
+  w_enabled (fst (gstep c s (GRestart a h0))) = false /\ w_pending (fst (gstep c s (GRestart a h0))) = w_pending s.
+Proof. intros c s a h0. split; reflexivity. Qed.
+
+(* the next log (of any transaction) switches the poller on again ... *)
+Lemma log_switches_poller_on : forall c s e tm, w_enabled (fst (@gstep K c s (GEvm (OLog e (Some tm))))) = true.
+Proof. intros c s e tm. reflexivity. Qed.
+
+(* ... and then the first poller tick that publishes a head at or beyond the depth forwards the entry left over from before the
+   restart, if its receipt is unchanged (the scan after repo commit 40922fc abandons only after failed lookups) *)
+Theorem restart_resumes_after_next_log : forall c s k p answers orc n sf last' err,
+  w_enabled s = true -> NoDup (keys (w_pending s)) -> find k (w_pending s) = Some p -> wf_p p ->
+  poll_tick true (w_last s) answers = (last', [(n, sf)], err) ->
+  0 <= n < two64 -> p_height p + expected_of (c_wait (g_evm c)) sf p <= n ->
+  orc k = mkAns (Some (1, k_bh k)) ENone ->
+  In (WEvm (Confirmed k (p_msg p))) (snd (@gstep K c s (GPoll answers orc))) /\
+  find k (w_pending (fst (@gstep K c s (GPoll answers orc)))) = None.
+Proof.
+  intros c s k p answers orc n sf last' err He Hnd Hf Hp Hpt Hn Hdeep Hgood.
+  cbn [gstep fst snd]. unfold poll_heads. rewrite He, Hpt. cbn [fst snd map evm_steps].
+  assert (Q : no_relog k ([] : list op)) by (intros o H; contradiction).
+  destruct (forwarded_exactly_once (g_evm c) (w_pending s) k p [] n sf orc [] Hnd Hf Hp Q Q) as [_ [R2 R3]];
+    try assumption.
+  { intros n' safe' orc' H. contradiction. }
+  cbn [app run fst snd length nth] in R2, R3. split.
+  - apply in_or_app. left. rewrite app_nil_r. rewrite evm_step_outs. cbn [w_pending].
+    apply in_map_iff. exists (Confirmed k (p_msg p)). split; [reflexivity|exact R2].
+  - exact R3.
+Qed.
+
+(* a log whose block-time lookup fails: Run returns, the log is in no data structure, and - the subscription of the next Run does
+   not replay it - it is never forwarded, however the chain advances and whatever the receipts say, unless the node announces
+   it again *)
+Theorem log_lost_when_block_time_lookup_fails : forall c s e (ops : list (gop K)),
+  NoDup (keys (w_pending s)) -> find (key_of e) (w_pending s) = None ->
+  no_relog (key_of e) (gtrace c s ops) ->
+  @gstep K c s (GEvm (OLog e None)) = (s, [WDied]) /\
+  forall x, In x (evm_outs (snd (grun c s (GEvm (OLog e None) :: ops)))) -> aboutb (key_of e) x = false.
+Proof.
+  intros c s e ops Hnd Hf Hr.
+  assert (Es : @gstep K c s (GEvm (OLog e None)) = (s, [WDied])) by (destruct s; reflexivity).
+  split; [exact Es|].
+  intros x Hin. destruct (aboutb (key_of e) x) eqn:Ea; [|reflexivity]. exfalso.
+  cbn [grun snd] in Hin. rewrite Es in Hin. cbn [fst snd] in Hin.
+  unfold evm_outs in Hin. cbn [concat app flat_map evm_of] in Hin.
+  change (In x (evm_outs (snd (grun c s ops)))) in Hin.
+  destruct (grun_evm c ops s) as [_ G]. rewrite G in Hin. apply filter_In in Hin. destruct Hin as [Hin _].
+  destruct (run_fate (g_evm c) (key_of e) (gtrace c s ops) (w_pending s) Hnd) as [R _].
+  rewrite Hf, (fate_none _ _ _ Hr) in R. cbn [fst] in R.
+  assert (Hx : In x (concat (map (filter (aboutb (key_of e))) (snd (run (g_evm c) (w_pending s) (gtrace c s ops)))))).
+  { apply in_concat in Hin. destruct Hin as [l [Hl Hxl]]. apply in_concat. exists (filter (aboutb (key_of e)) l).
+    split; [apply in_map; exact Hl|apply filter_In; split; assumption]. }
+  rewrite R in Hx. apply in_concat in Hx. destruct Hx as [l [Hl Hxl]]. apply in_map_iff in Hl. destruct Hl as [_ [El _]].
+  subst l. contradiction.
+Qed.
+End Restart.
